@@ -1,6 +1,7 @@
 import XmlRsModel.XmlDoc
 import XmlRsModel.Thm.C02
 import XmlRsModel.Lemmas.AbsDoc
+import XmlRsModel.Gen.Predefined
 /-! Property C01: well-formed documents are accepted and yield the infoset they denote.
     FULL STATEMENT (completeness direction):  `∀ d st, WFA d → parseDoc (render st d) = .ok (denote d, [])`.
     PROVED for the whole supported profile - XML declaration, Misc, DOCTYPE with internal subset (element, attribute-list,
@@ -143,5 +144,11 @@ example : checkDoc exDoc.erase = .ok () := by rfl
 
 example : charOfRef ['6', '5'] false = some 'A' ∧ charOfRef ['4', '1'] true = some 'A' ∧
     charOfRef ['0'] false = none ∧ charOfRef ['D', '8', '0', '0'] true = none := by decide
+
+/-- the predefined entities of the model - names and replacement texts, in the order they are tried - ARE the ones the source
+    answers with when no declaration of that name exists (`Gen/Predefined.lean` is regenerated from info/src/lib.rs
+    `Context::entity` on every run) -/
+theorem predefined_is_the_sources :
+    predefined.map (fun p => (p.1, match p.2 with | .internal [.text t] => t | _ => [])) = Gen.Predefined.table := rfl
 
 end XmlRs.C01
